@@ -1,6 +1,7 @@
 //! wf-airint — engines for the integer-level AIR properties (C21, C24, C25).
 #![allow(clippy::all)]
 mod assertions;
+mod context;
 mod security;
 
 fn main() {
@@ -10,6 +11,7 @@ fn main() {
         Some("assertions") => assertions::main(&args[2..]),
         Some("assertion-sets") => assertions::main_sets(&args[2..]),
         Some("assertion-ctor") => assertions::main_ctor(&args[2..]),
+        Some("context-seed") => context::main(&args[2..]),
         Some("security-lines") => security::main_lines(&args[2..]),
         Some("security-record") => security::main_record(&args[2..]),
         Some("security-optsets") => security::main_optsets(&args[2..]),
